@@ -100,6 +100,7 @@ func checkC05(r *Run) {
 	r.Rule("C05.R2.atomic", "Controller.remove decides emptiness and removes the region inside one Controller.mu write section; Gate.position is taken from region.counter, which only ever increases", 3)
 	r.Rule("C05.R4.rejected", "idxWriter.write advances the index high-water mark before authorization, so every path on which a write was rejected as ErrUnauthorized resets hasUncommittedData before returning", 1)
 	r.Rule("C05.R5.range", "region.open admits a gate (returns it with a nil error) only on paths that stored the union of the region's range with the gate's range: OpenGate decides by range overlap whether a new gate contends with the holder, so a gate admitted without growing the region lets a later writer open a second region - and be in control - over part of the holder's range", 1)
+	r.Rule("C05.R6.decide", "Gate.Authorize hands out the resource only across the edge on which the gate is the region's current holder (exclusive concurrency) or its authority is at least the holder's (shared); Controller.OpenGate opens a new resource only when no existing region overlapped the gate's range, and marks a region as found on every path on which it opened the gate there", 4)
 	r.Rule("C05.ERR", "in the cesium writer/control code no error is discarded, replaced inside its own failure branch, or accumulated over a loop from a possibly-nil value (an ErrUnauthorized of one index group must survive the groups written after it)", 1)
 	r.Rule("C05.R3.transfers", "every call in package cesium that yields a control.Transfer or ControlUpdate binds it, appends it to a ControlUpdate on the success/Occurred path and forwards that update (updateControlDigests / updateDBControl / return); discards only where tabled", 10)
 
@@ -109,6 +110,7 @@ func checkC05(r *Run) {
 	checkTransfers(r, p)
 	checkRejectedWrite(r, p)
 	checkRegionRange(r, p)
+	checkAuthorizeDecision(r, p)
 	checkErrDrop(r, p, "C05.ERR", func(fn *FuncNode) bool {
 		return fn.InPkgs("cesium") && !fn.InPkgs("cesium/internal/testutil", "cesium/internal/domain", "cesium/internal/index", "cesium/internal/meta", "cesium/internal/migrate")
 	}, 300)
@@ -797,4 +799,169 @@ func checkRegionRange(r *Run, p *Prog) {
 	}
 	r.ObPath("C05.R5.range", "region.open grows the region's range on every path that admits the gate", p.Position(fn.Pos()), ok && n > 0,
 		"a gate admitted without the union leaves part of its range outside every region: the next writer opened there gets a region of its own and is authorized next to the holder", path)
+}
+
+// checkAuthorizeDecision decides C05.R6.
+func checkAuthorizeDecision(r *Run, p *Prog) {
+	auth := p.Func(ctlPkg, "Gate", "Authorize")
+	if auth == nil {
+		r.Undecide("C05.R6: Gate.Authorize not found")
+	} else {
+		c := p.CFG(auth)
+		var recv types.Object
+		if auth.Decl.Recv != nil && len(auth.Decl.Recv.List[0].Names) == 1 {
+			recv = auth.Pkg.TypesInfo.Defs[auth.Decl.Recv.List[0].Names[0]]
+		}
+		isCurr := func(e ast.Expr) bool {
+			sel, ok := ast.Unparen(e).(*ast.SelectorExpr)
+			return ok && sel.Sel.Name == "curr"
+		}
+		holder := c.EdgesEstablishing(func(atom ast.Expr, val bool) bool {
+			be, ok := ast.Unparen(atom).(*ast.BinaryExpr)
+			if !ok || (be.Op != token.EQL && be.Op != token.NEQ) {
+				return false
+			}
+			if !((isCurr(be.X) && objOf(auth, be.Y) == recv) || (isCurr(be.Y) && objOf(auth, be.X) == recv)) {
+				return false
+			}
+			return (be.Op == token.EQL) == val
+		})
+		isAuthOf := func(e ast.Expr, ofRecv bool) bool {
+			sel, ok := ast.Unparen(e).(*ast.SelectorExpr)
+			if !ok || sel.Sel.Name != "authority" {
+				return false
+			}
+			if ofRecv {
+				return objOf(auth, sel.X) == recv
+			}
+			return isCurr(sel.X)
+		}
+		outranks := c.EdgesEstablishing(func(atom ast.Expr, val bool) bool {
+			be, ok := ast.Unparen(atom).(*ast.BinaryExpr)
+			if !ok {
+				return false
+			}
+			switch {
+			case isAuthOf(be.X, true) && isAuthOf(be.Y, false):
+				return (be.Op == token.GEQ && val) || (be.Op == token.LSS && !val)
+			case isAuthOf(be.X, false) && isAuthOf(be.Y, true):
+				return (be.Op == token.LEQ && val) || (be.Op == token.GTR && !val)
+			}
+			return false
+		})
+		exclusive := c.EdgesEstablishing(func(atom ast.Expr, val bool) bool {
+			be, ok := ast.Unparen(atom).(*ast.BinaryExpr)
+			if !ok || (be.Op != token.EQL && be.Op != token.NEQ) {
+				return false
+			}
+			isExcl := func(e ast.Expr) bool {
+				sel, ok := ast.Unparen(e).(*ast.SelectorExpr)
+				return ok && sel.Sel.Name == "ConcurrencyExclusive"
+			}
+			if !isExcl(be.X) && !isExcl(be.Y) {
+				return false
+			}
+			return (be.Op == token.EQL) == val
+		})
+		succ := func(vis map[Point]bool, q *Query) []string {
+			for _, ex := range c.Exits() {
+				if ex.Return != nil && vis[ex.P] && mayReturnNilError(auth, ex.Return) {
+					return q.PathTo(ex.P)
+				}
+			}
+			return nil
+		}
+		both := map[edge]bool{}
+		for e := range holder {
+			both[e] = true
+		}
+		for e := range outranks {
+			both[e] = true
+		}
+		q, vis := c.ReachAvoiding([]Point{c.Entry()}, both, nil)
+		path := succ(vis, q)
+		r.ObPath("C05.R6.decide", "Gate.Authorize succeeds only for the current holder or a gate that outranks it", p.Position(auth.Pos()), len(holder) > 0 && len(outranks) > 0 && path == nil,
+			"the resource is handed out on a path that established neither: a writer that is not in control writes", path)
+		var starts []Point
+		for e := range exclusive {
+			starts = append(starts, Point{e.B.Succs[e.Succ], -1})
+		}
+		q2, vis2 := c.ReachAvoiding(starts, holder, nil)
+		p2 := succ(vis2, q2)
+		r.ObPath("C05.R6.decide", "under exclusive concurrency Gate.Authorize succeeds only for the current holder", p.Position(auth.Pos()), len(starts) > 0 && p2 == nil,
+			"with exclusive concurrency an equal-authority gate that is not the holder must be refused", p2)
+	}
+	og := p.Func(ctlPkg, "Controller", "OpenGate")
+	if og == nil {
+		r.Undecide("C05.R6: Controller.OpenGate not found")
+		return
+	}
+	c := p.CFG(og)
+	var exists types.Object
+	inspectNoLit(og.Body, func(n ast.Node) bool {
+		if as, ok := n.(*ast.AssignStmt); ok && len(as.Lhs) == 1 && len(as.Rhs) == 1 {
+			if id, ok := ast.Unparen(as.Rhs[0]).(*ast.Ident); ok && id.Name == "true" {
+				if o := objOf(og, as.Lhs[0]); o != nil {
+					exists = o
+				}
+			}
+		}
+		return true
+	})
+	isOpenRes := func(n ast.Node) bool {
+		return nodeHasCall(og, n, func(o types.Object, call *ast.CallExpr) bool {
+			if sel, ok := ast.Unparen(call.Fun).(*ast.SelectorExpr); ok && sel.Sel.Name == "OpenResource" {
+				return true
+			}
+			f, ok := o.(*types.Func)
+			return ok && f.Name() == "unsafeInsertNewRegion"
+		})
+	}
+	notFound := c.EdgesEstablishing(func(atom ast.Expr, val bool) bool { return exists != nil && objOf(og, atom) == exists && !val })
+	q, vis := c.ReachAvoiding([]Point{c.Entry()}, notFound, nil)
+	var path []string
+	for _, pt := range c.NodesWhere(isOpenRes) {
+		if vis[pt] {
+			path = q.PathTo(pt)
+		}
+	}
+	r.ObPath("C05.R6.decide", "OpenGate opens a new resource only when no existing region overlapped", p.Position(og.Pos()), exists != nil && len(notFound) > 0 && len(c.NodesWhere(isOpenRes)) > 0 && path == nil,
+		"a second region (and resource) over a range an existing region covers: two writers are then in control of overlapping ranges", path)
+	// the overlap branch marks the region as found unless it returns
+	overlap := c.EdgesEstablishing(func(atom ast.Expr, val bool) bool {
+		call, ok := ast.Unparen(atom).(*ast.CallExpr)
+		if !ok || !val {
+			return false
+		}
+		f := CalleeFunc(og, call)
+		return f != nil && f.Name() == "OverlapsWith"
+	})
+	var starts []Point
+	for e := range overlap {
+		starts = append(starts, Point{e.B.Succs[e.Succ], -1})
+	}
+	var loop ast.Stmt
+	inspectNoLit(og.Body, func(n ast.Node) bool {
+		if rs, ok := n.(*ast.RangeStmt); ok && loop == nil {
+			loop = rs
+		}
+		return true
+	})
+	isMark := func(n ast.Node) bool {
+		as, ok := n.(*ast.AssignStmt)
+		if !ok || len(as.Lhs) != 1 || exists == nil || objOf(og, as.Lhs[0]) != exists {
+			return false
+		}
+		id, ok := ast.Unparen(as.Rhs[0]).(*ast.Ident)
+		return ok && id.Name == "true"
+	}
+	q3, vis3 := c.ReachAvoiding(starts, nil, isMark)
+	var p3 []string
+	for pt := range vis3 {
+		if pt.B.Stmt == loop && (pt.B.Kind.String() == "RangeLoop" || pt.B.Kind.String() == "RangeDone") {
+			p3 = q3.PathTo(pt)
+		}
+	}
+	r.ObPath("C05.R6.decide", "OpenGate records an overlapping region as found on every path that goes on", p.Position(og.Pos()), len(starts) > 0 && loop != nil && p3 == nil,
+		"a region that took the gate but is not recorded lets OpenGate open a second region for the same gate", p3)
 }
